@@ -253,13 +253,16 @@ Definition decode_limits (bs : list Z) : option (Z * option Z * list Z) :=  (* (
 
 (* ------------------------------------------------------------------ correspondence cases (harness/c02enc.py)
 
-   Long byte strings travel run-length encoded: [(count, byte); ...].  A case carries the input and the bytes
-   OBSERVED from the implementation; `bad_model` lists the ids where the port computes other bytes,
-   `bad_spec` the ids where the specification decoder applied to the observed bytes does not give back the
-   input with nothing left over. *)
+   Long inputs travel run-length encoded: [(count, byte); ...].  The bytes OBSERVED from the implementation travel
+   as repeated blocks: [(count, [bytes of the block]); ...].  A case carries the input and the observed bytes;
+   `bad_model` lists the ids where the port computes other bytes, `bad_spec` the ids where the specification
+   decoder applied to the observed bytes does not give back the input with nothing left over. *)
 
 Definition expand_rle (r : list (Z * Z)) : list Z :=
   flat_map (fun g => repeat (snd g) (Z.to_nat (fst g))) r.
+
+Definition expand_blocks (r : list (Z * list Z)) : list Z :=
+  flat_map (fun g => concat (repeat (snd g) (Z.to_nat (fst g)))) r.
 
 Inductive enc_case : Type :=
 | CU32 (v : Z)
@@ -303,12 +306,12 @@ Definition spec_accepts (c : enc_case) (obs : list Z) : bool :=
   | CLimits v => match decode_limits obs with Some (x, None, []) => x =? v | _ => false end
   end.
 
-Definition enc_row : Type := (Z * enc_case * list (Z * Z))%type.          (* id, input, observed bytes (rle) *)
+Definition enc_row : Type := (Z * enc_case * list (Z * list Z))%type.     (* id, input, observed bytes (blocks) *)
 
 Definition bad_model (cs : list enc_row) : list Z :=
   flat_map (fun r => match r with (id, c, obs) =>
-     if bytes_eqb (model_bytes c) (expand_rle obs) then [] else [id] end) cs.
+     if bytes_eqb (model_bytes c) (expand_blocks obs) then [] else [id] end) cs.
 
 Definition bad_spec (cs : list enc_row) : list Z :=
   flat_map (fun r => match r with (id, c, obs) =>
-     if spec_accepts c (expand_rle obs) then [] else [id] end) cs.
+     if spec_accepts c (expand_blocks obs) then [] else [id] end) cs.
